@@ -26,6 +26,7 @@ type Srv struct {
 	stub *rpcStub
 	Opts SrvOpts
 	Root []byte
+	TD   *timed_disk.Disk // with Opts.Timed: the statistics-keeping disk wrapper
 }
 
 // rootHandle: the handle MOUNT gives out for the root (the repository's own
@@ -38,7 +39,8 @@ func rootHandle() []byte {
 func StartSrv(d *CDisk, o SrvOpts) *Srv {
 	s := &Srv{D: d, Opts: o}
 	if o.Timed {
-		s.N = nfs.MakeNfs(timed_disk.New(d))
+		s.TD = timed_disk.New(d)
+		s.N = nfs.MakeNfs(s.TD)
 	} else {
 		s.N = nfs.MakeNfs(d)
 	}
